@@ -43,6 +43,8 @@ def is_sym(x):
 CTX = None           # current context (symbolic or concrete)
 QUERY_TIMEOUT_MS = 20000
 QUERY_RLIMIT = 0     # 0 = unlimited
+import os as _os
+DEBUG_SLOW = float(_os.environ.get('SX_DEBUG_SLOW', '0') or 0)
 
 
 def cur():
@@ -70,13 +72,79 @@ class Ctx:
         self.notes = []                # free-form per path notes (go to samples)
         self.fresh = 0
         self.symbolic = True
+        self._grp = {}                 # union-find parent: var key -> var key
+        self._cons = {}                # root var key -> list of constraints
+        self._novars = []              # constraints without free variables
 
     # -- solver -------------------------------------------------------------------------------
+    def _find(self, v):
+        g = self._grp
+        r = v
+        while g.get(r, r) != r:
+            r = g[r]
+        while g.get(v, v) != r:
+            g[v], v = r, g[v]
+        return r
+
+    def add(self, c):
+        """add a constraint to the path condition (full solver + independence groups)"""
+        self.solver.add(c)
+        self.pc.append(c)
+        vs = free_vars(c)
+        if not vs:
+            self._novars.append(c)
+            return
+        roots = set(self._find(v) for v in vs)
+        it = iter(roots)
+        r0 = next(it)
+        self._grp.setdefault(r0, r0)
+        lst = self._cons.setdefault(r0, [])
+        for r in it:
+            self._grp[r] = r0
+            lst.extend(self._cons.pop(r, []))
+        for v in vs:
+            if v not in self._grp:
+                self._grp[v] = r0
+        lst.append(c)
+
+    def relevant(self, extra):
+        """constraints of the path condition that share variables (transitively) with the query"""
+        roots = set()
+        for e in extra:
+            for v in free_vars(e):
+                if v in self._grp:
+                    roots.add(self._find(v))
+        out = list(self._novars)
+        for r in roots:
+            out.extend(self._cons.get(r, ()))
+        return out
+
     def check(self, *extra):
         t = time.time()
         self.queries += 1
+        if extra and SLICING:
+            # constraint independence: the path condition is satisfiable as a whole (invariant), so only the
+            # constraints connected to the query through shared variables can influence the answer
+            rel = self.relevant(extra)
+            if len(rel) < len(self.pc):
+                s2 = z3.Solver()
+                s2.set("timeout", QUERY_TIMEOUT_MS)
+                s2.add(rel)
+                r = s2.check(*extra)
+                self._last = s2
+                dt = time.time() - t
+                self.solver_s += dt
+                if DEBUG_SLOW and dt > DEBUG_SLOW:
+                    import sys
+                    sys.stderr.write("SLOW(sliced %d/%d) %.1fs %s extra=%s\n" % (len(rel), len(self.pc), dt, r, [str(e)[:300] for e in extra]))
+                return r
+        self._last = self.solver
         r = self.solver.check(*extra)
-        self.solver_s += time.time() - t
+        dt = time.time() - t
+        self.solver_s += dt
+        if DEBUG_SLOW and dt > DEBUG_SLOW:
+            import sys
+            sys.stderr.write("SLOW %.1fs %s extra=%s\n   pc=%s\n" % (dt, r, [str(e)[:300] for e in extra], [str(p)[:200] for p in self.pc][-12:]))
         return r
 
     def is_sat(self, *extra):
@@ -113,8 +181,7 @@ class Ctx:
                 v = False
         self.pos += 1
         c = cond if v else z3.Not(cond)
-        self.solver.add(c)
-        self.pc.append(c)
+        self.add(c)
         return v
 
     def assume(self, cond):
@@ -124,10 +191,9 @@ class Ctx:
             if not cond:
                 raise Infeasible()
             return
-        self.solver.add(cond)
-        self.pc.append(cond)
+        self.add(cond)
         if self.pos >= len(self.decisions):      # only check on the frontier; replayed prefixes were checked
-            if not self.is_sat():
+            if not self.is_sat(cond):
                 raise Infeasible()
 
     # -- declaring symbolic inputs ------------------------------------------------------------
@@ -190,6 +256,43 @@ class Ctx:
                 ln = model.eval(extra, model_completion=True).as_long()
                 out[name] = {"blob_len": ln}
         return out
+
+
+SLICING = True
+_FV_CACHE = {}
+
+
+def free_vars(e):
+    """keys of the uninterpreted symbols (constants, arrays, functions) occurring in a z3 expression"""
+    k = e.get_id()
+    r = _FV_CACHE.get(k)
+    if r is not None:
+        return r[1]
+    out = set()
+    seen = set()
+    stack = [e]
+    while stack:
+        x = stack.pop()
+        i = x.get_id()
+        if i in seen:
+            continue
+        seen.add(i)
+        c = _FV_CACHE.get(i)
+        if c is not None:
+            out |= c[1]
+            continue
+        if z3.is_app(x):
+            d = x.decl()
+            if d.kind() == z3.Z3_OP_UNINTERPRETED:
+                out.add(d.name())
+            stack.extend(x.children())
+        elif z3.is_quantifier(x):
+            stack.append(x.body())
+    r = frozenset(out)
+    if len(_FV_CACHE) > 200000:
+        _FV_CACHE.clear()
+    _FV_CACHE[k] = (e, r)      # the entry keeps the AST alive, so its id cannot be reused while cached
+    return r
 
 
 def zstr_value(v):
@@ -446,6 +549,15 @@ class SymInt(Sym):
             return s + o
         if ua is not None and _tz(o) >= (ua - 1).bit_length():
             return s + o
+        # metadata insufficient: ask the solver whether, under the current path condition, one operand fits below
+        # the other's known trailing zero bits (then a|b == a+b)
+        if CTX is not None and symbolic_mode():
+            for a, b in ((s, o), (o, s)):
+                k = _tz(a)
+                if 0 < k < (1 << 20):
+                    bt = toint(b)
+                    if not CTX.is_sat(z3.Or(bt < 0, bt >= (1 << k))):
+                        return s + o
         return s._bv(o, lambda a, b: a | b)
     __ror__ = __or__
 
@@ -648,7 +760,7 @@ def explore(fn, max_paths=20000, timeout_s=None, want_samples=True, expected=())
                     st["paths"] += 1
                     sample = None
                     if want_samples:
-                        if ctx.is_sat():
+                        if ctx.check() == z3.sat:
                             sample = ctx.model_values(ctx.solver.model())
                             st["samples"].append({"values": sample, "notes": list(ctx.notes)})
                     for label, ob in obligations:
@@ -660,7 +772,7 @@ def explore(fn, max_paths=20000, timeout_s=None, want_samples=True, expected=())
                                 st["discharged"] += 1
                             else:
                                 if sample is None:
-                                    ctx.is_sat()
+                                    ctx.check()
                                     sample = ctx.model_values(ctx.solver.model())
                                 st["violations"].append({"label": label, "values": sample, "kind": "obligation", "notes": list(ctx.notes)})
                             continue
@@ -668,6 +780,10 @@ def explore(fn, max_paths=20000, timeout_s=None, want_samples=True, expected=())
                         if r == z3.unsat:
                             st["discharged"] += 1
                         elif r == z3.sat:
+                            if ctx._last is not ctx.solver:
+                                if ctx.solver.check(z3.Not(ob)) != z3.sat:
+                                    st["inconclusive"].append("unknown: full model for violated obligation %s" % label)
+                                    continue
                             st["violations"].append({"label": label, "values": ctx.model_values(ctx.solver.model()),
                                                      "kind": "obligation", "notes": list(ctx.notes)})
                         else:
